@@ -258,13 +258,20 @@ def construct(cls_name, kwargs):
     return {'cls': cls_name, 'args': {n: abstract(v) for n, v in kwargs.items()} or {'_': {'t': 'none'}}, 'out': out}
 
 
+class BaseRefused(Exception):
+    """carries the Construct event of a base construction that was refused"""
+
+
 def set_then_marshal(cls_name, kwargs, arg, v, ch=1, between=False):
     """valid construction, attribute changed afterwards, then frame.marshal; with between: two other (valid)
     frames, built BEFORE the mutation, are marshalled between the mutation and the marshal"""
     from abstraction import class_by_name
     from pamqp import commands
     k = class_by_name(cls_name)
-    o = k(**kwargs)
+    try:
+        o = k(**kwargs)
+    except Exception:  # noqa  (the base arguments satisfy every constraint: a refusal is for TLC to judge, as a Construct event)
+        raise BaseRefused(construct(cls_name, kwargs))
     others = [commands.Basic.Ack(7, True), commands.Queue.Declare(queue='ok')] if between else []
     setattr(o, arg, v)
     for other in others:
